@@ -204,8 +204,11 @@ enum Step {
     Publish { #[serde(default)] qos: u8, #[serde(default)] size: usize,
               /// ack timeout: "" none | "max" (Duration::MAX) | "zero" | milliseconds
               #[serde(default)] ack: String },
-    Subscribe {},
+    /// drop: the handle to the operation's result is dropped at once (fire and forget): nothing may depend on it
+    Subscribe { #[serde(default)] drop: bool },
     Unsubscribe {},
+    /// a QoS 0 publish whose result handle is dropped at once
+    Abandon {},
     /// the broker sends n QoS 0 publishes (tagged payloads of `size` bytes) to the client
     Inbound { n: usize, #[serde(default)] size: usize },
     /// let everything finish: generous virtual time, then collect results and the loop's state
@@ -466,9 +469,16 @@ async fn run_script(script: &Script, run_no: u64, tr: Trace) -> Trace {
                 r.emit("OpSubmit", vec![("op", json!(id)), ("kind", json!("pub")), ("qos", json!(qos)), ("afterClose", json!(closed as u8))]);
                 r.pending.push((id, Box::pin(async move { match fut.await { Ok(_) => Ok("ok".to_string()), Err(e) => Err(verif_harness::sim::err_kind(&e).to_string()) } })));
             }
-            Step::Subscribe {} => {
+            Step::Abandon {} => {
+                let id = r.next_op; r.next_op += 1;
+                let fut = client.publish(PublishPacket::builder("t/verif".to_string(), QualityOfService::AtMostOnce).with_payload(verif_harness::trace::payload_for(id, 8)).build(), None);
+                std::mem::drop(fut);
+                r.emit("OpAbandoned", vec![("op", json!(id)), ("kind", json!("pub"))]);
+            }
+            Step::Subscribe { drop } => {
                 let id = r.next_op; r.next_op += 1;
                 let fut = client.subscribe(SubscribePacket::builder().with_subscription_simple(format!("s/{}/a", id), QualityOfService::AtLeastOnce).build(), None);
+                if *drop { std::mem::drop(fut); r.emit("OpAbandoned", vec![("op", json!(id)), ("kind", json!("sub"))]); r.observe(); r.poll_results().await; continue; }
                 r.emit("OpSubmit", vec![("op", json!(id)), ("kind", json!("sub")), ("qos", json!(0)), ("afterClose", json!(closed as u8))]);
                 r.pending.push((id, Box::pin(async move { match fut.await { Ok(_) => Ok("ok".to_string()), Err(e) => Err(verif_harness::sim::err_kind(&e).to_string()) } })));
             }
